@@ -42,16 +42,20 @@ func NewRdbReaderFromFile(w io.WriteCloser, rdbFilePath string, verifyCrc bool) 
 func NewRdbReader(w io.WriteCloser, rdbDir string, offset int64, rdbSize int64, verifyCrc bool) (*RdbReader, error) {
 	rdbFn := fmt.Sprintf("%s%c%v_%v.rdb", rdbDir, os.PathSeparator, offset, rdbSize)
 
-	writting := false
-	if !fileExist(rdbFn) {
-		rdbFn = rdbFn + ".tmp"
-		if !fileExist(rdbFn) {
-			return nil, os.ErrNotExist
+	// The writer renames <x>.rdb.tmp to <x>.rdb when the last byte is written, at
+	// any instant relative to this function: open (do not probe and then open) the
+	// committed name, the temporary name, and the committed name once more — a
+	// rename between two probes made a snapshot the index offers "not exist".
+	for _, c := range []struct {
+		fn       string
+		writting bool
+	}{{rdbFn, false}, {rdbFn + ".tmp", true}, {rdbFn, false}} {
+		r, err := newRdbReader(w, c.fn, offset, rdbSize, verifyCrc, c.writting)
+		if err == nil || !os.IsNotExist(err) {
+			return r, err
 		}
-		writting = true
 	}
-
-	return newRdbReader(w, rdbFn, offset, rdbSize, verifyCrc, writting)
+	return nil, os.ErrNotExist
 }
 
 func newRdbReader(w io.WriteCloser, rdbFilePath string, offset int64, rdbSize int64, verifyCrc bool, isWritting bool) (*RdbReader, error) {
